@@ -11,6 +11,7 @@ import (
 	"reflect"
 	"sort"
 	"strings"
+	"sync"
 	"testing"
 	"time"
 
@@ -297,6 +298,10 @@ func c36GenPatchFor(t *rapid.T, target any, depth int) any {
 	}
 	patch := map[string]any{}
 	for _, k := range c36SortedKeys(to) {
+		if _, childObj := to[k].(map[string]any); childObj && rapid.Bool().Draw(t, "recurse") {
+			patch[k] = c36GenPatchFor(t, to[k], depth+1)
+			continue
+		}
 		switch rapid.IntRange(0, 6).Draw(t, "act") {
 		case 0: // untouched
 		case 1:
@@ -325,6 +330,22 @@ func c36GenPatchFor(t *rapid.T, target any, depth int) any {
 	return patch
 }
 
+// c36GenNested draws a target object in which about half of the members are
+// objects themselves (down to depth 3), so that patches can recurse.
+func c36GenNested(t *rapid.T, depth int) map[string]any {
+	n := rapid.IntRange(1, 4).Draw(t, "nlen")
+	obj := map[string]any{}
+	for i := 0; i < n; i++ {
+		k := rapid.SampledFrom(c36Keys).Draw(t, "nkey")
+		if depth < 3 && rapid.Bool().Draw(t, "nobj") {
+			obj[k] = c36GenNested(t, depth+1)
+		} else {
+			obj[k] = c36GenValue(t, depth+1, false)
+		}
+	}
+	return obj
+}
+
 func c36JSON(v any) string {
 	b, err := json.Marshal(v)
 	if err != nil {
@@ -338,12 +359,7 @@ func c36Gen(t *rapid.T) c36Case {
 	if rapid.IntRange(0, 9).Draw(t, "targetKind") == 0 {
 		target = c36GenValue(t, 0, false)
 	} else {
-		target = c36GenObject(t, 0, false)
-		// make sure nesting exists often: one more forced nested object
-		if rapid.Bool().Draw(t, "deepen") {
-			m := target.(map[string]any)
-			m[rapid.SampledFrom(c36Keys).Draw(t, "dk")] = c36GenObject(t, 1, false)
-		}
+		target = c36GenNested(t, 0)
 	}
 	var patch any
 	if rapid.IntRange(0, 7).Draw(t, "patchKind") == 0 {
@@ -421,6 +437,26 @@ func c36TargetDoc(c *config.Config) (any, error) {
 	return nil, fmt.Errorf("unexpected yaml document shape")
 }
 
+var (
+	c36DocMu    sync.Mutex
+	c36DocCache = map[int]any{}
+)
+
+// c36CachedDoc memoises c36TargetDoc per variant. The document is only ever
+// read (c36RefMerge and the generators copy, never edit it).
+func c36CachedDoc(variant int) (any, error) {
+	c36DocMu.Lock()
+	defer c36DocMu.Unlock()
+	if d, ok := c36DocCache[variant%3]; ok {
+		return d, nil
+	}
+	d, err := c36TargetDoc(c36Config(variant))
+	if err == nil {
+		c36DocCache[variant%3] = d
+	}
+	return d, err
+}
+
 func c36NodeToJSON(n *yaml.Node) (any, error) {
 	switch n.Kind {
 	case yaml.MappingNode:
@@ -490,7 +526,7 @@ func c36CfgRun(c c36CfgCase) (res verifkit.Result) {
 	current := c36Config(c.Variant)
 	pristine := c36Config(c.Variant)
 
-	targetDoc, err := c36TargetDoc(c36Config(c.Variant))
+	targetDoc, err := c36CachedDoc(c.Variant)
 	if err != nil {
 		return verifkit.Fail("harness:target-doc", "cannot render target document: %v", err)
 	}
@@ -550,7 +586,7 @@ func c36CfgRun(c c36CfgCase) (res verifkit.Result) {
 	if !reflect.DeepEqual(got, want) {
 		gy, _ := yaml.Marshal(got)
 		wy, _ := yaml.Marshal(want)
-		return verifkit.Fail("config:candidate-differs", "patch %s: candidate differs from the RFC 7396 result.\n--- got\n%s\n--- want\n%s", c.Patch, c36Diff(string(gy), string(wy)), "")
+		return verifkit.Fail("config:candidate-differs", "patch %s: candidate differs from the RFC 7396 result:\n%s", c.Patch, c36Diff(string(gy), string(wy)))
 	}
 
 	// field-level probes (independent of the reference decode)
@@ -701,31 +737,35 @@ func c36GenWrongType(t *rapid.T, v any) any {
 	return "x"
 }
 
-// c36GenDocPatch walks the effective configuration document and edits it.
+// c36GenDocPatch walks the effective configuration document and makes a few
+// edits per visited object (few, so that a good share of patches stays valid).
 func c36GenDocPatch(t *rapid.T, doc map[string]any, depth int) map[string]any {
 	patch := map[string]any{}
-	for _, k := range c36SortedKeys(doc) {
+	keys := c36SortedKeys(doc)
+	if len(keys) == 0 {
+		return patch
+	}
+	edits := rapid.IntRange(1, 3).Draw(t, "edits")
+	for i := 0; i < edits; i++ {
+		k := keys[rapid.IntRange(0, len(keys)-1).Draw(t, "kidx")]
 		v := doc[k]
-		act := rapid.IntRange(0, 11).Draw(t, "dact")
 		child, isObj := v.(map[string]any)
-		switch {
-		case act <= 5: // untouched (keeps patches small so that a good share is accepted)
-			if isObj && act >= 3 {
-				if sub := c36GenDocPatch(t, child, depth+1); len(sub) > 0 {
-					patch[k] = sub
-				}
-			}
-		case act == 6:
+		if isObj && depth < 4 && rapid.IntRange(0, 2).Draw(t, "descend") > 0 {
+			patch[k] = c36GenDocPatch(t, child, depth+1)
+			continue
+		}
+		switch rapid.IntRange(0, 7).Draw(t, "dact") {
+		case 0, 1:
 			patch[k] = nil
-		case act == 7 || act == 8:
+		case 2, 3, 4:
 			if isObj {
 				patch[k] = c36GenDocPatch(t, child, depth+1)
 			} else {
 				patch[k] = c36GenSameType(t, v)
 			}
-		case act == 9:
+		case 5:
 			patch[k] = c36GenWrongType(t, v)
-		case act == 10:
+		case 6:
 			if isObj {
 				sub := c36GenDocPatch(t, child, depth+1)
 				sub[rapid.SampledFrom([]string{"zzUnknown", "Bind", "enabled ", "config"}).Draw(t, "unk")] = c36GenScalar(t, true)
@@ -795,7 +835,7 @@ func c36CfgGen(t *rapid.T) c36CfgCase {
 		}
 		c.Patch = c36JSON(patch)
 	case mode <= 8: // walk the document
-		doc, err := c36TargetDoc(c36Config(variant))
+		doc, err := c36CachedDoc(variant)
 		if err != nil {
 			t.Fatalf("target doc: %v", err)
 		}
